@@ -170,6 +170,7 @@ def build_case(mod, meta, symbolic=True, concrete_inputs=None, rm_mode='sym'):
     case.stats = {'paths': len(finals), 'steps': ex.total_steps, 'intrinsics': sorted(ex.intrinsics_used),
                   'callees': sorted(ex.called), 'feasibility_queries': ex.feas_queries}
     exp = o.oracle(T, *args_or, **kw)
+    exp_alts = [orc(T, *args_or, **kw) for pred, orc in (o.alt or []) if symbolic and pred(T)]
     rty = fn.ret
     pcs = []
     for fi, f in enumerate(finals):
@@ -178,7 +179,12 @@ def build_case(mod, meta, symbolic=True, concrete_inputs=None, rm_mode='sym'):
         tag = 'path%d' % fi
         # UB obligations recorded during execution
         for cat, bad, info, pcsnap in f.obls:
-            case.obligations.append({'kind': cat, 'formula': b_and(b_and(*pcsnap), bad), 'desc': info, 'group': tag + ':ub'})
+            dom = True
+            if o.lane_pre and T.n > 1 and cat == 'ub:signed-division-overflow':
+                continue      # C05 only speaks about zero divisors in other lanes; MIN / -1 in another lane is outside the statement
+            if o.lane_pre and T.n == 1 and cat in ('ub:division-by-zero', 'ub:signed-division-overflow'):
+                dom = o.lane_pre(T, 0, *args_or)      # a width-1 division outside the documented domain is not claimed
+            case.obligations.append({'kind': cat, 'formula': b_and(b_and(*pcsnap), bad, dom), 'desc': info, 'group': tag + ':ub'})
         # MXCSR unchanged
         if f.mxcsr is not st.extra['mxcsr0']:
             ctl = 0xFFC0
@@ -186,11 +192,30 @@ def build_case(mod, meta, symbolic=True, concrete_inputs=None, rm_mode='sym'):
                                      'formula': b_and(pc, sym.ne(sym.and_(f.mxcsr, ctl, 32), sym.and_(st.extra['mxcsr0'], ctl, 32), 32))})
         if f.ret is None:
             continue
-        case.obligations += result_obligations(o, T, meta, rty, f.ret, exp, args_or, pc, tag)
+        obs = result_obligations(o, T, meta, rty, f.ret, exp, args_or, True, tag)
+        altobs = [result_obligations(o, T, meta, rty, f.ret, e, args_or, True, tag) for e in exp_alts]
+        for k, ob in enumerate(obs):
+            ob['core'] = ob['formula']
+            ob['pc_list'] = list(f.pc)
+            ob['formula'] = b_and(pc, ob['core'])
+            if altobs and ob['kind'] == 'result':
+                ob['alt'] = [{'core': al[k]['formula'], 'formula': b_and(pc, al[k]['formula']), 'exp': al[k].get('exp')} for al in altobs]
+            case.obligations.append(ob)
     case.vacuity = b_or(*pcs) if pcs else False
     case.ret_type = rty
     case.finals = finals
     return case
+
+
+class _RetView:
+    """an Op seen with a normalised result kind"""
+
+    def __init__(self, o, kind):
+        self._o = o
+        self.ret = kind
+
+    def __getattr__(self, k):
+        return getattr(self._o, k)
 
 
 def result_obligations(o, T, meta, rty, ret, exp, args_or, pc, tag):
@@ -198,6 +223,14 @@ def result_obligations(o, T, meta, rty, ret, exp, args_or, pc, tag):
     S = signed_of(T)
     RT = {'v': T, 'w': S, 'x': S, 's': T}.get(o.ret)
     out = []
+    kind = o.ret
+    if kind.startswith('V:'):
+        RT = BY_NAME[kind[2:]]
+        kind = 'v'
+    elif kind.startswith('M:'):
+        T = BY_NAME[kind[2:]]
+        kind = 'm'
+    o = _RetView(o, kind)
     if o.ret in 'vwxs':
         n = 1 if o.ret == 's' else RT.n
         got, pp = unpack_lanes(ret, rty, RT.bits, n)
